@@ -1,6 +1,7 @@
 /- C01 — core-language evaluation agrees with ECMAScript reference semantics. Theorems about the reference interpreter
    itself: the laws of completion records it is built from (they are what the correspondence run compares the engine with). -/
 import BoaVerif.C01.Model
+import BoaVerif.C01.Coerce
 namespace BoaVerif.C01
 
 /-- UpdateEmpty only ever fills in an empty value -/
@@ -90,3 +91,55 @@ theorem finally_transparent (fuel : Nat) (s : St) (env : List Nat) (body fin : L
   | thr v => simp only [h3]
 
 end BoaVerif.C01
+
+-- ------------------------------------------------------------------ operators and coercions (second model)
+namespace BoaVerif.C01.Coerce
+
+/-- a primitive converts to itself and no user code runs -/
+theorem toPrimitive_prim (h : Hint) (p : Prim) (log : Log) : toPrimitive h (.prim p) log = (.ok p, log) := rfl
+
+/-- hint string: `toString` is consulted first, and when it answers with a primitive `valueOf` is never called -/
+theorem toPrimitive_string_first (o : Obj) (p : Prim) (log : Log) (h : o.toStr = some (.prim p)) :
+    toPrimitive .string (.obj o) log = (.ok p, log ++ ["s" ++ toString o.id]) := by
+  simp [toPrimitive, callM, h]
+
+/-- hints default and number: `valueOf` first; when it answers with a primitive `toString` is never called -/
+theorem toPrimitive_valueOf_first (hint : Hint) (hh : hint ≠ .string) (o : Obj) (p : Prim) (log : Log) (h : o.valueOf = some (.prim p)) :
+    toPrimitive hint (.obj o) log = (.ok p, log ++ ["v" ++ toString o.id]) := by
+  cases hint <;> simp_all [toPrimitive, callM]
+
+/-- when neither method yields a primitive the conversion is a TypeError (after trying both, in hint order) -/
+theorem toPrimitive_typeError (hint : Hint) (o : Obj) (log : Log)
+    (hv : o.valueOf = none ∨ o.valueOf = some .object) (hs : o.toStr = none ∨ o.toStr = some .object) :
+    (toPrimitive hint (.obj o) log).1 = .error .typeError := by
+  rcases hv with hv | hv <;> rcases hs with hs | hs <;> cases hint <;> simp [toPrimitive, callM, hv, hs]
+
+/-- operators on primitives run no user code -/
+theorem binary_prims_silent (op : BinOp) (p q : Prim) (log : Log) : (binary op (.prim p) (.prim q) log).2 = log := by
+  cases op <;> simp only [binary, toPrimitive, looseEq] <;> (try rfl) <;> (cases p <;> cases q <;> rfl)
+
+/-- LEFT FIRST: if converting the left operand fails, nothing of the right operand runs -/
+theorem binary_left_failure_stops (op : BinOp) (a b : Val) (log : Log) (e : Err) (l : Log)
+    (hop : op = .add ∨ op = .sub ∨ op = .mul ∨ op = .lt ∨ op = .gt ∨ op = .le ∨ op = .ge)
+    (h : toPrimitive (if op = .add then .default else .number) a log = (.error e, l)) :
+    binary op a b log = (.error e, l) := by
+  rcases hop with rfl | rfl | rfl | rfl | rfl | rfl | rfl <;> simp_all [binary]
+
+theorem numToPrim_numeric (r : Num) : (∃ n, Val.prim (numToPrim r) = .prim (.num n)) ∨ Val.prim (numToPrim r) = .prim .nan := by
+  cases r with
+  | int n => exact Or.inl ⟨n, rfl⟩
+  | nan => exact Or.inr rfl
+
+/-- `-`, `*` never produce a string -/
+theorem arith_result_numeric (op : BinOp) (hop : op = .sub ∨ op = .mul) (a b : Val) (log : Log) (v : Val) (l : Log)
+    (h : binary op a b log = (.ok v, l)) : (∃ n, v = .prim (.num n)) ∨ v = .prim .nan := by
+  rcases hop with rfl | rfl <;>
+  · simp only [binary] at h
+    split at h
+    · cases h
+    · split at h
+      · cases h
+      · cases h
+        exact numToPrim_numeric _
+
+end BoaVerif.C01.Coerce
